@@ -356,6 +356,10 @@ struct FileCfg {
     order: usize,
     /// numbering / listing of the internal tree nodes (see ModelSpec::numbering)
     numbering: u8,
+    /// which of the 6 orders the three spectrum options (ALPHA, GAMMA, LN_GAIN) are written in
+    optorder: u8,
+    /// 0: streams keyed MCP/LF0/LPF as in the bundled voice, 1: MGC/F0/BAP (the keys are free-form)
+    names: u8,
 }
 
 fn build_file(fc: &FileCfg, pool: &[(String, Vec<String>)], all_shapes: &[TreeSpec]) -> VoiceSpec {
@@ -412,13 +416,19 @@ fn build_file(fc: &FileCfg, pool: &[(String, Vec<String>)], all_shapes: &[TreeSp
     };
     let windows = window_set(fc.wset);
     let nwin = windows.len();
+    let names: [&str; 3] = if fc.names == 0 { ["MCP", "LF0", "LPF"] } else { ["MGC", "F0", "BAP"] };
+    let options: Vec<String> = {
+        let o = ["ALPHA=0.37", "GAMMA=2", "LN_GAIN=1"];
+        let perm = [[0, 1, 2], [0, 2, 1], [1, 0, 2], [1, 2, 0], [2, 0, 1], [2, 1, 0]][fc.optorder as usize % 6];
+        perm.iter().map(|i| o[*i].to_string()).collect()
+    };
     let states: Vec<usize> = (2..2 + fc.nstate).collect();
     let mut streams = vec![
-        StreamSpec { name: "MCP".into(), vlen: fc.vlen, is_msd: false, use_gv: true, options: vec!["ALPHA=0.37".into(), "GAMMA=2".into(), "LN_GAIN=1".into()], windows: windows.clone(), model: model(1, "mcp", states.clone(), fc.vlen * nwin, false, 0), gv: Some(model(4, "gv_mcp", vec![2], fc.vlen, false, 1)) },
-        StreamSpec { name: "LF0".into(), vlen: 1, is_msd: true, use_gv: fc.ns == 2, options: vec![], windows: windows.clone(), model: model(2, "lf0", states.clone(), nwin, true, 2), gv: if fc.ns == 2 { Some(model(5, "gv_lf0", vec![2], 1, false, 3)) } else { None } },
+        StreamSpec { name: names[0].into(), vlen: fc.vlen, is_msd: false, use_gv: true, options: options.clone(), windows: windows.clone(), model: model(1, "mcp", states.clone(), fc.vlen * nwin, false, 0), gv: Some(model(4, "gv_mcp", vec![2], fc.vlen, false, 1)) },
+        StreamSpec { name: names[1].into(), vlen: 1, is_msd: true, use_gv: fc.ns == 2, options: vec![], windows: windows.clone(), model: model(2, "lf0", states.clone(), nwin, true, 2), gv: if fc.ns == 2 { Some(model(5, "gv_lf0", vec![2], 1, false, 3)) } else { None } },
     ];
     if fc.ns == 3 {
-        streams.push(StreamSpec { name: "LPF".into(), vlen: 3, is_msd: false, use_gv: false, options: vec!["X=1".into(), "Y=2".into()], windows: vec![vec![1.0]], model: model(3, "lpf", states.clone(), 3, false, 1), gv: None });
+        streams.push(StreamSpec { name: names[2].into(), vlen: 3, is_msd: false, use_gv: false, options: vec!["X=1".into(), "Y=2".into()], windows: vec![vec![1.0]], model: model(3, "lpf", states.clone(), 3, false, 1), gv: None });
     }
     VoiceSpec { rate: 22050, fperiod: 110, nstate: fc.nstate, gv_off: vec!["*-sil+*".into(), "*-pau+*".into()], dur: model(0, "dur", vec![2], fc.nstate, false, 0), streams }
 }
@@ -514,7 +524,7 @@ fn construct_label(path: &[(String, bool)], questions: &HashMap<String, Vec<Stri
 
 pub fn run(tier: Tier) -> i32 {
     let rep = Report::new("C04", tier, "model_checking");
-    rep.set_rule("SCOPE: (a) bundled voice: every model (duration, 3 streams x 5 states, 2 GV) x every label of the label space (corpus + one-group recombinations of the cover set + every distinct corpus value of every field group in 2-4 base labels + typed sweeps of every numeric field over 0..N + phoneme symbols from the voice's own patterns) vs an independent reader of the file + HTS wildcard matcher, bit-exact on means/variances/voicing weight and equal on tree/PDF index; (b) every distinct question of the bundled voice x the label space: crate matcher vs wildcard oracle; (c) generated files: all binary tree shapes with <= 3 internal nodes x 4 leaf numberings (in order, reversed, permuted, tied: one PDF reached by several branches) x quoted/unquoted x question triples from a pool of real questions (incl. the regex-fallback ones) x layout deviations (states, streams, vector length, window set, order in which the state trees are listed, numbering and listing order of the internal nodes: sequential, non-contiguous ids, ids counted backwards, yes-subtree rows first), checked against both the independent reader and the generator's spec (sentinel floats); (d) metadata, options, windows, engine defaults vs the header; distinct = (file, model, state, label); non-trivial = lookups through a tree with more than one leaf");
+    rep.set_rule("SCOPE: (a) bundled voice: every model (duration, 3 streams x 5 states, 2 GV) x every label of the label space (corpus + one-group recombinations of the cover set + every distinct corpus value of every field group in 2-4 base labels + typed sweeps of every numeric field over 0..N + phoneme symbols from the voice's own patterns) vs an independent reader of the file + HTS wildcard matcher, bit-exact on means/variances/voicing weight and equal on tree/PDF index; (b) every distinct question of the bundled voice x the label space: crate matcher vs wildcard oracle; (c) generated files: all binary tree shapes with <= 3 internal nodes x 4 leaf numberings (in order, reversed, permuted, tied: one PDF reached by several branches) x quoted/unquoted x question triples from a pool of real questions (incl. the regex-fallback ones) x layout deviations (states, streams, vector length, window set, order in which the state trees are listed, numbering and listing order of the internal nodes: sequential, non-contiguous ids, ids counted backwards, yes-subtree rows first; the six orders of the spectrum options; stream keys MGC/F0/BAP instead of MCP/LF0/LPF), checked against both the independent reader and the generator's spec (sentinel floats); (d) metadata, options, windows, engine defaults vs the header; distinct = (file, model, state, label); non-trivial = lookups through a tree with more than one leaf");
     rep.assume("labels limited to the stated label space; generated trees have at most 3 internal nodes; the label text matched by the oracle is the label's own serialisation");
     // ---------- question pool from the bundled voice ----------
     let v0b = v0_bytes();
@@ -680,7 +690,7 @@ pub fn run(tier: Tier) -> i32 {
         .collect();
     let all_shapes: Vec<TreeSpec> = (0..=3).flat_map(shapes).collect();
     let mut files: Vec<FileCfg> = Vec::new();
-    let default = FileCfg { shape: 0, assign: 0, quoted: true, qtriple: [0, 1, 2], nstate: 2, ns: 3, vlen: 2, wset: 2, order: 0, numbering: 0 };
+    let default = FileCfg { shape: 0, assign: 0, quoted: true, qtriple: [0, 1, 2], nstate: 2, ns: 3, vlen: 2, wset: 2, order: 0, numbering: 0, optorder: 0, names: 0 };
     let mut triples: Vec<[usize; 3]> = Vec::new();
     for a in 0..pool.len() {
         for b in 0..pool.len() {
@@ -729,6 +739,12 @@ pub fn run(tier: Tier) -> i32 {
                             continue;
                         }
                         files.push(FileCfg { shape, assign, quoted, qtriple: *t, nstate: l.0, ns: l.1, vlen: l.2, wset: l.3, ..default.clone() });
+                        // the same file with the spectrum options in each other order, and with other stream keys
+                        if ti == 0 && li == 0 && assign == 0 {
+                            for optorder in 1..6u8 {
+                                files.push(FileCfg { shape, assign, quoted, qtriple: *t, nstate: l.0, ns: l.1, vlen: l.2, wset: l.3, optorder, names: optorder % 2, ..default.clone() });
+                            }
+                        }
                         // the same file with its internal nodes numbered / listed in the other legal ways
                         if ti == 0 || li == 0 {
                             for numbering in 1..=3u8 {
@@ -738,7 +754,7 @@ pub fn run(tier: Tier) -> i32 {
                         // the same file with its state trees listed in descending / rotated order (states >= 2 only)
                         if l.0 >= 2 && (ti == 0 || li == 0) && (shape + assign) % 2 == 0 {
                             for order in [1usize, 2] {
-                                files.push(FileCfg { shape, assign, quoted, qtriple: *t, nstate: if order == 2 { 5 } else { l.0 }, ns: l.1, vlen: l.2, wset: l.3, order, numbering: 0 });
+                                files.push(FileCfg { shape, assign, quoted, qtriple: *t, nstate: if order == 2 { 5 } else { l.0 }, ns: l.1, vlen: l.2, wset: l.3, order, numbering: 0, optorder: 0, names: 0 });
                             }
                         }
                     }
